@@ -85,7 +85,7 @@ def main(tier):
     rep = H.Report(PROP, tier)
     prog = H.get_program()
     rng = H.rng(PROP)
-    D, T, SS = (8, 6, 12) if tier == 'quick' else (14, 12, 30)
+    D, T, SS = (8, 6, 12) if tier == 'quick' else (10, 8, 16)
     tasks = []
     for L in range(1, D + 1):
         for i in range(0, T + 1):
